@@ -816,6 +816,14 @@ def theory_pairs(atoms):
         if st:
             idx[st] = s
     out = []
+    # domain invariant of reachable states: a compromised host is held with at least USER access
+    # (a success stores compromised := True together with access := max(previous, granted) -
+    # C01.success-marks, C04.access-monotone - and every granted level is USER or ROOT - C18 /
+    # C15.definitions; reset clears both).  `compromised` and `access < USER` exclude each other.
+    aset = set(atoms)
+    for s in atoms:
+        if s.endswith(".compromised") and f"{s[:-len('.compromised')]}.access<1" in aset:
+            out.append((s, f"{s[:-len('.compromised')]}.access<1"))
     for (op, a, b), s in idx.items():
         if op == "<":
             t = idx.get(("<", b, a))
